@@ -61,11 +61,16 @@ func genC05(g *Rng, tier string, emit func(Op)) {
 		keys = append(keys, fixedKey("k2048", false), toyKey("toy1", 6))
 		rounds = 80
 	}
+	// the parameter set in which the message length differs from the hash length (Lm 512, Lh 256)
+	keys = append(keys, key4096("k4096", 3))
 	for _, kp := range keys {
 		emit(declKey(kp))
 	}
 	for r := 0; r < rounds; r++ {
 		for ki, kp := range keys {
+			if kp.id == "k4096" && r >= 4 && (tier != "thorough" || r >= 16) {
+				continue
+			}
 			pk := kp.pk
 			nb := 1 + g.intn(len(pk.R))
 			if r < len(pk.R) {
